@@ -118,7 +118,7 @@ def oracle_df(case):
 @st.composite
 def rms_case(draw, tier):
     n = draw(st.integers(2, 400))
-    return {"n": n, "seed": draw(st.integers(0, 2 ** 31 - 1)), "grid": draw(st.sampled_from(["log", "lin", "irregular", "dense_offset", "tiny"])),
+    return {"n": n, "seed": draw(st.integers(0, 2 ** 31 - 1)), "grid": draw(st.sampled_from(["log", "lin", "irregular", "dense_offset", "tiny", "red", "red"])),
             "edge": draw(st.sampled_from(["free", "free", "between", "hug_out", "hug_in"])),
             "u": sorted(draw(st.lists(st.one_of(st.floats(0.01, 0.99), st.floats(0.01, 0.99), st.floats(-0.2, 1.2)), min_size=3, max_size=3))), "snap": draw(st.booleans()),
             "fscale": draw(st.sampled_from([1.0, 1e-3, 1e4]))}
@@ -135,11 +135,17 @@ def _grid(case):
         f = 900.0 + 1e-3 * np.arange(n)                  # spacing/frequency ~ 1e-6 (periodogram of a long record)
     elif case["grid"] == "tiny":
         f = 1e-9 * (1.0 + np.arange(n))                  # nHz grid: spacing below any absolute tolerance
+    elif case["grid"] == "red":
+        f = np.logspace(-5, 0, n)
     else:
         f = np.cumsum(rng.uniform(0.01, 1.0, n))
-    if case["grid"] not in ("dense_offset", "tiny"):
+    if case["grid"] not in ("dense_offset", "tiny", "red"):
         f = f * case["fscale"]
     asd = np.exp(rng.standard_normal(n)) * (1 + 10 / (1 + f / f[0]))
+    if case["grid"] == "red":
+        # steep red spectrum over five decades: the power below a band dwarfs the power inside it
+        f = np.logspace(-5, 0, n)
+        asd = f ** (-float(rng.choice([2.0, 3.0]))) * np.exp(0.1 * rng.standard_normal(n))
     return f, asd
 
 
